@@ -812,8 +812,13 @@ impl<'a> GeneratorState<'a> {
                             .compiler_state
                             .syntax_error("Code too complex for the compiler", pos));
                     }
+                    // The post-increments of the left operand take place at the comma; those of
+                    // an operand of the enclosing expression that is not used yet stay pending
+                    let nb_deferred = self.deferred_plusplus.len();
                     self.generate_expr(lhs, pos, false, false)?;
+                    let pending: Vec<_> = self.deferred_plusplus.drain(..nb_deferred).collect();
                     self.purge_deferred_plusplus_and_savey()?;
+                    self.deferred_plusplus = pending;
                     self.acc_in_use = false;
                     self.tmp_in_use = false;
                     self.generate_expr(rhs, pos, false, false)
